@@ -1,5 +1,286 @@
-/- C18 — theorems under construction. -/
-import BEI.Model.App
+/-
+  C18 — Built-in modifiers obey their algebraic laws and never invent input (over exact rationals; *partly partial*:
+  the radial dead zone is stated for an abstract length function, exponents are natural numbers, `f32` rounding is not
+  modelled).  AccumulateBy is covered in C13 (`accumulateBy_spec`).
+-/
+import BEI.Model.Modifiers
+import Mathlib.Tactic.Linarith
+import Mathlib.Tactic.Positivity
+import Mathlib.Tactic.Ring
+import Mathlib.Tactic.FieldSimp
+import Mathlib.Algebra.Order.Field.Basic
+import Mathlib.Algebra.Order.Ring.Abs
+import Mathlib.Algebra.Order.AbsoluteValue.Basic
 namespace BEI.Props.C18
-theorem placeholder_true : True := trivial
+open BEI Mod
+
+/-! ### Negate, Scale, DeltaScale -/
+
+/-- Negate flips the sign of exactly the selected axes -/
+theorem negate_axes (nx ny nz : Bool) (x y z : Rat) :
+    negateV nx ny nz (.a3 x y z) = .a3 (if nx then -x else x) (if ny then -y else y) (if nz then -z else z)
+    ∧ negateV nx ny nz (.a2 x y) = .a2 (if nx then -x else x) (if ny then -y else y)
+    ∧ negateV nx ny nz (.a1 x) = .a1 (if nx then -x else x) := ⟨rfl, rfl, rfl⟩
+
+/-- twice is the identity (a Bool input has become its 0/1 axis value) -/
+theorem negate_involution (nx ny nz : Bool) (v : Value) :
+    negateV nx ny nz (negateV nx ny nz v) = v.promote := by
+  cases v <;> cases nx <;> cases ny <;> cases nz <;> simp [negateV, Value.promote]
+
+/-- Scale multiplies per axis -/
+theorem scale_axes (fx fy fz x y z : Rat) :
+    scaleV fx fy fz (.a3 x y z) = .a3 (x * fx) (y * fy) (z * fz) ∧ scaleV fx fy fz (.a2 x y) = .a2 (x * fx) (y * fy)
+    ∧ scaleV fx fy fz (.a1 x) = .a1 (x * fx) := ⟨rfl, rfl, rfl⟩
+
+/-- DeltaScale multiplies by the frame delta -/
+theorem deltaScale_axes (d x y z : Rat) :
+    deltaScaleV d (.a3 x y z) = .a3 (x * d) (y * d) (z * d) ∧ deltaScaleV d (.a2 x y) = .a2 (x * d) (y * d)
+    ∧ deltaScaleV d (.a1 x) = .a1 (x * d) := ⟨rfl, rfl, rfl⟩
+
+/-! ### SwizzleAxis -/
+
+/-- the stated permutation of a 3-vector -/
+def perm : Swz → V3 → V3
+  | .yxz, p => ⟨p.y, p.x, p.z⟩ | .zyx, p => ⟨p.z, p.y, p.x⟩ | .xzy, p => ⟨p.x, p.z, p.y⟩
+  | .yzx, p => ⟨p.y, p.z, p.x⟩ | .zxy, p => ⟨p.z, p.x, p.y⟩
+
+/-- on 3D input the output is exactly the stated permutation -/
+theorem swizzle_3d (s : Swz) (x y z : Rat) : (swizzleV s (.a3 x y z)).as3 = perm s ⟨x, y, z⟩ := by
+  cases s <;> rfl
+
+/-- on Bool / 1D / 2D input the output is the stated permutation of the zero-padded input, truncated to the output
+    dimension (2D stays 2D: the axis moved to Z is dropped; 1D is promoted to the dimension that holds its axis) -/
+theorem swizzle_low (s : Swz) (v : Value) (hv : v.dim ≠ .a3) :
+    (swizzleV s v).as3 =
+      (let p := perm s v.promote.as3
+       match (swizzleV s v).dim with
+       | .bool => p | .a1 => ⟨p.x, 0, 0⟩ | .a2 => ⟨p.x, p.y, 0⟩ | .a3 => p) := by
+  cases v with
+  | bool b => cases s <;> cases b <;> simp [swizzleV, swizzleV.swizzle1, perm, Value.as3, Value.dim, Value.promote, boolToRat]
+  | a1 x => cases s <;> simp [swizzleV, swizzleV.swizzle1, perm, Value.as3, Value.dim, Value.promote]
+  | a2 x y => cases s <;> simp [swizzleV, perm, Value.as3, Value.dim, Value.promote]
+  | a3 x y z => exact absurd rfl hv
+
+/-- nothing is lost for Bool, 1D and 3D inputs: the input can be read back from the output -/
+theorem swizzle_lossless (s : Swz) (v w : Value) (hv : v.dim ≠ .a2) (hw : w.dim ≠ .a2) (hd : v.promote.dim = w.promote.dim)
+    (h : swizzleV s v = swizzleV s w) : v.promote = w.promote := by
+  cases v <;> cases w <;> cases s <;>
+    simp_all [swizzleV, swizzleV.swizzle1, Value.promote, Value.dim]
+
+/-! ### DeadZone (0 ≤ lower < upper) -/
+
+theorem absQ_eq (x : Rat) : absQ x = |x| := by
+  unfold absQ; split
+  · rename_i h; rw [abs_of_neg h]
+  · rename_i h; rw [abs_of_nonneg (not_lt.mp h)]
+
+theorem minQ_eq (a b : Rat) : minQ a b = min a b := by
+  unfold minQ; split
+  · rename_i h; rw [min_eq_right (le_of_lt h)]
+  · rename_i h; rw [min_eq_left (not_lt.mp h)]
+
+theorem maxQ_eq (a b : Rat) : maxQ a b = max a b := by
+  unfold maxQ; split
+  · rename_i h; rw [max_eq_right (le_of_lt h)]
+  · rename_i h; rw [max_eq_left (not_lt.mp h)]
+
+/-- the unsigned magnitude of the dead-zone output as a function of the input magnitude -/
+def dzMag (lo hi a : Rat) : Rat := min (max (a - lo) 0 / (hi - lo)) 1
+
+theorem deadZone1_eq (lo hi x : Rat) : deadZone1 lo hi x = dzMag lo hi |x| * signumQ x := by
+  simp [deadZone1, dzMag, absQ_eq, minQ_eq, maxQ_eq]
+
+theorem dzMag_range (lo hi a : Rat) (h : lo < hi) : 0 ≤ dzMag lo hi a ∧ dzMag lo hi a ≤ 1 := by
+  unfold dzMag
+  have hd : 0 < hi - lo := by linarith
+  constructor
+  · apply le_min
+    · exact div_nonneg (le_max_right _ _) (le_of_lt hd)
+    · norm_num
+  · exact min_le_right _ _
+
+theorem dzMag_mono (lo hi a b : Rat) (h : lo < hi) (hab : a ≤ b) : dzMag lo hi a ≤ dzMag lo hi b := by
+  unfold dzMag
+  have hd : 0 < hi - lo := by linarith
+  apply min_le_min _ (le_refl _)
+  apply div_le_div_of_nonneg_right _ (le_of_lt hd)
+  exact max_le_max (by linarith) (le_refl _)
+
+theorem signumQ_mul_self (x : Rat) : signumQ x * x = |x| := by
+  unfold signumQ; split
+  · rename_i h; rw [abs_of_neg h]; ring
+  · rename_i h; rw [abs_of_nonneg (not_lt.mp h)]; ring
+
+theorem signumQ_abs (x : Rat) : |signumQ x| = 1 := by unfold signumQ; split <;> simp
+
+/-- zero inside the lower threshold -/
+theorem deadZone_inside (lo hi x : Rat) (h0 : 0 ≤ lo) (h : lo < hi) (hx : |x| ≤ lo) : deadZone1 lo hi x = 0 := by
+  rw [deadZone1_eq]
+  have : dzMag lo hi |x| = 0 := by
+    unfold dzMag
+    have : max (|x| - lo) 0 = 0 := max_eq_right (by linarith)
+    rw [this]; simp
+  rw [this]; ring
+
+/-- magnitude at most one -/
+theorem deadZone_le_one (lo hi x : Rat) (h : lo < hi) : |deadZone1 lo hi x| ≤ 1 := by
+  rw [deadZone1_eq, abs_mul, signumQ_abs, mul_one, abs_of_nonneg (dzMag_range lo hi _ h).1]
+  exact (dzMag_range lo hi _ h).2
+
+/-- the sign of the input is preserved (the output never points the other way) -/
+theorem deadZone_sign (lo hi x : Rat) (h : lo < hi) : 0 ≤ deadZone1 lo hi x * x := by
+  rw [deadZone1_eq, mul_assoc, signumQ_mul_self]
+  exact mul_nonneg (dzMag_range lo hi _ h).1 (abs_nonneg x)
+
+/-- monotone -/
+theorem deadZone_mono (lo hi x y : Rat) (h : lo < hi) (hxy : x ≤ y) : deadZone1 lo hi x ≤ deadZone1 lo hi y := by
+  rw [deadZone1_eq, deadZone1_eq]
+  have rx := dzMag_range lo hi |x| h
+  have ry := dzMag_range lo hi |y| h
+  unfold signumQ
+  by_cases hx : x < 0 <;> by_cases hy : y < 0 <;> simp only [hx, hy, if_true, if_false]
+  · -- both negative: |x| ≥ |y|
+    have : dzMag lo hi |y| ≤ dzMag lo hi |x| := dzMag_mono lo hi _ _ h (by rw [abs_of_neg hx, abs_of_neg hy]; linarith)
+    linarith
+  · linarith [rx.1, ry.1]
+  · exact absurd (lt_of_le_of_lt hxy hy) hx
+  · have : dzMag lo hi |x| ≤ dzMag lo hi |y| :=
+      dzMag_mono lo hi _ _ h (by rw [abs_of_nonneg (not_lt.mp hx), abs_of_nonneg (not_lt.mp hy)]; exact hxy)
+    linarith
+
+/-- full scale at and beyond the upper threshold -/
+theorem deadZone_saturates (lo hi x : Rat) (h : lo < hi) (hx : hi ≤ |x|) : |deadZone1 lo hi x| = 1 := by
+  rw [deadZone1_eq, abs_mul, signumQ_abs, mul_one, abs_of_nonneg (dzMag_range lo hi _ h).1]
+  unfold dzMag
+  have hd : 0 < hi - lo := by linarith
+  have : 1 ≤ max (|x| - lo) 0 / (hi - lo) := by
+    rw [le_div_iff₀ hd]
+    have : hi - lo ≤ |x| - lo := by linarith
+    exact le_trans (by linarith) (le_max_left _ _)
+  exact min_eq_right this
+
+/-- radial dead zone, for any length function with `len v ≥ 0`: the output is the input direction scaled by a factor in
+    [0, 1 / len v · 1]; in particular it is zero inside the lower threshold and has length `dzMag (len v) ≤ 1` -/
+theorem deadZoneRadial_spec (len : V3 → Rat) (lo hi : Rat) (v : V3) (h0 : 0 ≤ lo) (h : lo < hi) (hl : 0 ≤ len v) :
+    (len v ≤ lo → deadZoneRadial len lo hi v = V3.zero)
+    ∧ (∃ k : Rat, 0 ≤ k ∧ deadZoneRadial len lo hi v = v.scale k ∧ k * len v ≤ 1) := by
+  unfold deadZoneRadial
+  simp only
+  by_cases hz : len v = 0
+  · simp only [hz, beq_self_eq_true, if_true, implies_true, true_and]
+    exact ⟨0, le_refl _, by simp [V3.scale, V3.zero], by simp⟩
+  · have hpos : 0 < len v := lt_of_le_of_ne hl (Ne.symm hz)
+    have hne : (len v == 0) = false := by simpa using hz
+    simp only [hne, Bool.false_eq_true, if_false]
+    have hdz : deadZone1 lo hi (len v) = dzMag lo hi (len v) := by
+      rw [deadZone1_eq, abs_of_nonneg hl]; unfold signumQ; simp [not_lt.mpr hl]
+    constructor
+    · intro hin
+      have := deadZone_inside lo hi (len v) h0 h (by rw [abs_of_nonneg hl]; exact hin)
+      rw [this]; simp [V3.scale, V3.zero]
+    · refine ⟨1 / len v * dzMag lo hi (len v), ?_, ?_, ?_⟩
+      · exact mul_nonneg (by positivity) (dzMag_range lo hi _ h).1
+      · rw [hdz]; simp [V3.scale]; refine ⟨?_, ?_, ?_⟩ <;> ring
+      · have := (dzMag_range lo hi (len v) h).2
+        have : 1 / len v * dzMag lo hi (len v) * len v = dzMag lo hi (len v) := by field_simp
+        linarith
+
+/-! ### ExponentialCurve (natural exponent n > 0) -/
+
+theorem expCurve_sign (x : Rat) (n : Nat) : 0 ≤ expCurve1 x n * x := by
+  unfold expCurve1
+  rw [absQ_eq, mul_assoc, signumQ_mul_self]
+  positivity
+
+theorem expCurve_fixed (n : Nat) (hn : 0 < n) : expCurve1 0 n = 0 ∧ expCurve1 1 n = 1 ∧ expCurve1 (-1) n = -1 := by
+  unfold expCurve1 absQ signumQ
+  refine ⟨?_, ?_, ?_⟩
+  · simp [Nat.pos_iff_ne_zero.mp hn]
+  · norm_num
+  · norm_num
+
+/-! ### zero ↦ zero, dimension changes only as documented -/
+
+def isZero (v : Value) : Prop := v.as3 = V3.zero
+
+theorem zero_to_zero (v : Value) (hz : isZero v) (lo hi : Rat) (h0 : 0 ≤ lo) (h : lo < hi) (n1 n2 n3 : Nat) (hn : 0 < n1 ∧ 0 < n2 ∧ 0 < n3)
+    (nx ny nz : Bool) (fx fy fz d : Rat) (s : Swz) :
+    isZero (negateV nx ny nz v) ∧ isZero (scaleV fx fy fz v) ∧ isZero (swizzleV s v) ∧ isZero (deadZoneAxialV lo hi v)
+    ∧ isZero (expV n1 n2 n3 v) ∧ isZero (deltaScaleV d v) := by
+  have dz0 : deadZone1 lo hi 0 = 0 := deadZone_inside lo hi 0 h0 h (by simpa using h0)
+  have e1 := (expCurve_fixed n1 hn.1).1
+  have e2 := (expCurve_fixed n2 hn.2.1).1
+  have e3 := (expCurve_fixed n3 hn.2.2).1
+  cases v with
+  | bool b =>
+    have hb : b = false := by cases b <;> simp_all [isZero, Value.as3, V3.zero]
+    subst hb
+    cases s <;> simp [isZero, negateV, scaleV, swizzleV, swizzleV.swizzle1, deadZoneAxialV, expV, deltaScaleV, Value.as3, V3.zero, boolToRat, dz0, e1]
+  | a1 x =>
+    have : x = 0 := by simpa [isZero, Value.as3, V3.zero] using hz
+    subst this
+    cases s <;> simp [isZero, negateV, scaleV, swizzleV, swizzleV.swizzle1, deadZoneAxialV, expV, deltaScaleV, Value.as3, V3.zero, dz0, e1]
+  | a2 x y =>
+    have : x = 0 ∧ y = 0 := by simpa [isZero, Value.as3, V3.zero] using hz
+    obtain ⟨rfl, rfl⟩ := this
+    cases s <;> simp [isZero, negateV, scaleV, swizzleV, deadZoneAxialV, expV, deltaScaleV, Value.as3, V3.zero, dz0, e1, e2]
+  | a3 x y z =>
+    have : x = 0 ∧ y = 0 ∧ z = 0 := by simpa [isZero, Value.as3, V3.zero] using hz
+    obtain ⟨rfl, rfl, rfl⟩ := this
+    cases s <;> simp [isZero, negateV, scaleV, swizzleV, deadZoneAxialV, expV, deltaScaleV, Value.as3, V3.zero, dz0, e1, e2, e3]
+
+/-- Bool becomes 1D; every other dimension is kept by Negate, Scale, DeadZone, ExponentialCurve, DeltaScale -/
+theorem dims_kept (v : Value) (nx ny nz : Bool) (fx fy fz lo hi d : Rat) (n1 n2 n3 : Nat) :
+    (negateV nx ny nz v).dim = v.promote.dim ∧ (scaleV fx fy fz v).dim = v.promote.dim
+    ∧ (deadZoneAxialV lo hi v).dim = v.promote.dim ∧ (expV n1 n2 n3 v).dim = v.promote.dim
+    ∧ (deltaScaleV d v).dim = v.promote.dim := by
+  cases v <;> simp [negateV, scaleV, deadZoneAxialV, expV, deltaScaleV, Value.promote, Value.dim]
+
+/-- swizzle promotion: 1D (and Bool) input becomes 2D or 3D exactly when its axis moves to Y or Z -/
+theorem swizzle_dims (s : Swz) (x : Rat) :
+    (swizzleV s (.a1 x)).dim = (match s with | .yxz | .zxy => .a2 | .zyx | .yzx => .a3 | .xzy => .a1) := by
+  cases s <;> rfl
+
+/-! ### DeltaLerp (speed ≥ 0, delta ≥ 0) -/
+
+/-- a number lies between two others -/
+def between (a b x : Rat) : Prop := (a ≤ x ∧ x ≤ b) ∨ (b ≤ x ∧ x ≤ a)
+
+theorem lerp_between (a b s : Rat) (h0 : 0 ≤ s) (h1 : s ≤ 1) : between a b (a * (1 - s) + b * s) := by
+  unfold between
+  rcases le_total a b with h | h
+  · left; constructor <;> nlinarith
+  · right; constructor <;> nlinarith
+
+/-- the output always lies between the previous output and the current input, in every axis, for every delta
+    (D4 fix: the interpolation factor is clamped to 1) -/
+theorem deltaLerp_between (speed : Rat) (prev : V3) (t : Tick) (v : Value) (hs : 0 ≤ speed) (hd : 0 ≤ t.delta) :
+    let out := (deltaLerpStep speed prev t v).1
+    let tgt := v.promote.as3
+    between prev.x tgt.x out.x ∧ between prev.y tgt.y out.y ∧ between prev.z tgt.z out.z := by
+  have hself : ∀ a b : Rat, between a b b := by
+    intro a b; unfold between
+    rcases le_total a b with h | h
+    · exact Or.inl ⟨h, le_refl _⟩
+    · exact Or.inr ⟨le_refl _, h⟩
+  simp only [deltaLerpStep]
+  split
+  · exact ⟨hself _ _, hself _ _, hself _ _⟩
+  · have hα0 : 0 ≤ minQ (t.delta * speed) 1 := by rw [minQ_eq]; exact le_min (mul_nonneg hd hs) (by norm_num)
+    have hα1 : minQ (t.delta * speed) 1 ≤ 1 := by rw [minQ_eq]; exact min_le_right _ _
+    simp only [lerp3, V3.scale, V3.add_def']
+    exact ⟨lerp_between _ _ _ hα0 hα1, lerp_between _ _ _ hα0 hα1, lerp_between _ _ _ hα0 hα1⟩
+where
+  V3.add_def' (a b : V3) : a + b = ⟨a.x + b.x, a.y + b.y, a.z + b.z⟩ := rfl
+
+/-- it reaches the input once close: within the snap distance the output *is* the input -/
+theorem deltaLerp_snaps (speed : Rat) (prev : V3) (t : Tick) (v : Value)
+    (h : (prev.sub v.promote.as3).normSq < Gen.dlerpSnapEps) :
+    deltaLerpStep speed prev t v = (v.promote.as3, v.promote) := by
+  simp [deltaLerpStep, h]
+
+/-- D4 (fixed by 4a1b141): without the clamp the output overshoots when delta * speed > 1 -/
+theorem legacy_overshoot : ¬ between (0 : Rat) 1 ((0 : Rat) * (1 - (1/4) * 8) + 1 * ((1/4) * 8)) := by
+  unfold between; norm_num
+
 end BEI.Props.C18
